@@ -86,6 +86,19 @@ def h_nona(n, array, inf = False):
         c.check('nona-removes-exactly-the-nan-rows', len(got) == len(want) and all((array or g[0] == w[0]) and feq(g[1], w[1]) for g, w in zip(got, want)))
     return h
 
+def h_nona2d(n):
+    """nona(frame) drops exactly the rows that are NaN in every column (cells incl. +-inf)"""
+    def h(c):
+        Pm = P()
+        ts = sorted_stamps(c, 't', n, gap_days = 3)
+        cols = {k: [c.float('%s%d' % (k, i), allow = (core.FIN, core.NAN, core.PINF, core.NINF), halves = 40) for i in range(n)] for k in 'ab'}
+        if n: c.cover('a-row-with-both-infinities', X.Or([X.And(cols['a'][i] > 0, minipd._isinf(cols['a'][i]), cols['b'][i] < 0, minipd._isinf(cols['b'][i])) for i in range(n)]))
+        r = Pm.nona(mkframe(c, cols, ts))
+        want = [(ts[i], (cols['a'][i], cols['b'][i])) for i in range(n) if not X.And(isn(cols['a'][i]), isn(cols['b'][i]))]
+        got, names = frame_rows(r)
+        c.check('nona-removes-exactly-the-all-nan-rows', list(names) == ['a', 'b'] and len(got) == len(want) and all(g[0] == w[0] and feq(g[1][0], w[1][0]) and feq(g[1][1], w[1][1]) for g, w in zip(got, want)))
+    return h
+
 def mkframe(c, cols, labels):
     if c.mode == 'sym': return minipd.DataFrame({k: list(v) for k, v in cols.items()}, index = list(labels))
     import pandas as rpd
@@ -95,12 +108,14 @@ def frame_rows(f):
     if isinstance(f, minipd.DataFrame): return [(t, tuple(f._c[c][i] for c in f._cols)) for i, t in enumerate(f._i._l)], list(f._cols)
     return [(t.to_pydatetime(), tuple(float(x) for x in row)) for t, row in zip(f.index, f.values)], list(f.columns)
 
-def h_fill2d(n, methods, limit, array):
+def h_fill2d(n, methods, limit, array, inf = False):
     """two-column frames (and 2-d arrays): every fill acts column by column; nona / fnna look at whole rows"""
     def h(c):
         Pm = P()
         ts = sorted_stamps(c, 't', n, gap_days = 3)
-        cols = dict(a = [value(c, 'a%d' % i) for i in range(n)], b = [value(c, 'b%d' % i) for i in range(n)])
+        val = (lambda nm: c.float(nm, allow = (core.FIN, core.NAN, core.PINF, core.NINF), halves = 40)) if inf else (lambda nm: value(c, nm))
+        cols = dict(a = [val('a%d' % i) for i in range(n)], b = [val('b%d' % i) for i in range(n)])
+        if inf and n: c.cover('a-row-with-both-infinities', X.Or([X.And(cols['a'][i] > 0, minipd._isinf(cols['a'][i]), cols['b'][i] < 0, minipd._isinf(cols['b'][i])) for i in range(n)]))
         const = c.float('const', allow = (core.FIN,), halves = 40)
         arg_methods = [const if m == 'const' else m for m in methods]
         if n: c.cover('columns-end-on-different-rows', X.And(isn(cols['a'][-1]), X.Not(isn(cols['b'][-1]))))
@@ -143,6 +158,8 @@ def obligations(tier):
         for m in ('nona', 'fnna', 'ffill', 'ffill_na'):
             for arr in (False, True): obs.append(Ob('inf.%s.%s.%d' % ('array' if arr else 'series', m, n), h_fill(n, [m], None, arr, True), setup = S, budget_s = 300, desc = 'df_fillna(%s of %d cells incl. +-inf, %s): infinite cells are values, not missing' % ('array' if arr else 'Series', n, m)))
         for arr in (False, True): obs.append(Ob('inf.nona-function.%s.%d' % ('array' if arr else 'series', n), h_nona(n, arr, True), setup = S, budget_s = 300, desc = 'nona(%s of %d cells incl. +-inf)' % ('array' if arr else 'Series', n)))
+        if n <= 2: obs.append(Ob('inf.frame.nona.%d' % n, h_fill2d(n, ['nona'], None, False, True), setup = S, budget_s = 300, desc = 'df_fillna(two-column frame of %d rows incl. +-inf, nona): a row holding +inf and -inf is not a missing row' % n))
+        if n <= 2: obs.append(Ob('inf.frame.nona-function.%d' % n, h_nona2d(n), setup = S, budget_s = 300, desc = 'nona(two-column frame of %d rows incl. +-inf)' % n))
     for n in range(0, 3 if q else 4):
         for m in METHODS:
             for limit in ((None, 1) if m in ('ffill', 'bfill') else (None,)):
